@@ -44,4 +44,48 @@ mod verif_driver_narrow {
         std::panic::set_hook(prev);
         println!("VERIF-CASES fn=take n={n}");
     }
+
+    struct AnyStore(Vec<UtxoRef>);
+    impl UtxoStore for AnyStore {
+        async fn narrow_refs(&self, _pattern: UtxoPattern<'_>) -> Result<HashSet<UtxoRef>, Error> { Ok(self.0.iter().cloned().collect()) }
+        async fn fetch_utxos(&self, _refs: HashSet<UtxoRef>) -> Result<tx3_tir::model::core::UtxoSet, Error> { Ok(Default::default()) }
+    }
+
+    // ---- C14: narrowing is total on every query a template (or a client-sent IR) can state: with or without an address,
+    // with or without references, and a minimum amount over every KIND of asset class - the coin, an asset with a name but no
+    // policy (what an absent or empty policy with a name canonicalises to), assets with policies and names of odd lengths,
+    // zero and negative amounts.  BOUND: 2 address options x 3 reference sets x 12 minimum amounts x 3 stores.
+    #[test]
+    fn narrow_search_space_is_total() {
+        use tx3_tir::model::assets::CanonicalAssets;
+        let mut n = 0;
+        let prev = std::panic::take_hook();
+        std::panic::set_hook(Box::new(|_| {}));
+        let amounts: Vec<(&str, Option<CanonicalAssets>)> = vec![
+            ("no minimum", None), ("empty", Some(CanonicalAssets::empty())), ("coin 5", Some(CanonicalAssets::from_naked_amount(5))), ("coin 0", Some(CanonicalAssets::from_naked_amount(0))),
+            ("coin -1", Some(CanonicalAssets::from_naked_amount(-1))),
+            ("a name without policy", Some(CanonicalAssets::from_named_asset(b"T", 1))), ("an empty policy with a name", Some(CanonicalAssets::from_asset(Some(&[]), Some(b"T"), 1))),
+            ("a policy without name", Some(CanonicalAssets::from_asset(Some(&[7; 28]), None, 1))), ("a defined token", Some(CanonicalAssets::from_defined_asset(&[7; 28], b"T", 1))),
+            ("a token with a policy of 3 bytes and a name of 70", Some(CanonicalAssets::from_defined_asset(&[7; 3], &[1; 70], 1))),
+            ("coin + name-only + token", Some(CanonicalAssets::from_naked_amount(2) + CanonicalAssets::from_named_asset(b"T", 1) + CanonicalAssets::from_defined_asset(&[7; 28], b"T", 1))),
+            ("a token of amount 0", Some(CanonicalAssets::from_defined_asset(&[7; 28], b"T", 0))),
+        ];
+        for address in [None, Some(vec![0x61u8; 29])] {
+            for nrefs in [0u32, 1, 3] {
+                for (adesc, min_amount) in &amounts {
+                    for store_size in [0u32, 1, 60] {
+                        n += 1;
+                        let q = CanonicalQuery { address: address.clone(), min_amount: min_amount.clone(), refs: refs(0, nrefs), support_many: false, collateral: false };
+                        let store = AnyStore(refs(0, store_size).into_iter().collect());
+                        let input = format!("address {} / {nrefs} references / minimum amount: {adesc} / store of {store_size} class=query-shape", if address.is_some() { "given" } else { "absent" });
+                        if catch_unwind(AssertUnwindSafe(|| pollster::block_on(narrow_search_space(&store, &q)).map(|s| s.take(Some(50)).len()))).is_err() {
+                            witness("c14_resolver/narrow_search_space#reachable-panic", "narrow_search_space", input, "panic".into(), "Ok or Err");
+                        }
+                    }
+                }
+            }
+        }
+        std::panic::set_hook(prev);
+        println!("VERIF-CASES fn=narrow_search_space n={n}");
+    }
 }
